@@ -18,9 +18,9 @@ Inductive call3 :=
 | CPrimsVar (cf nf : bool) (s : list Z) (dims : list Z) (c : Q) (ssds : list Q)
 | CLogSumExp (s : list Z) (dims : list Z) (keepdim : bool)
 | CVar (with_mean sqrt_ : bool) (s : list Z) (dims : option (list Z)) (c : Q) (keepdim : bool) (ssds : list Q)
-| CScatterSrc (s : list Z) (dim : Z) (idx src : list Z)
-| CScatterValue (s : list Z) (dim : Z) (idx : list Z)
-| CScatterAdd (uf : bool) (s : list Z) (dim : Z) (idx src : list Z)
+| CScatterSrc (sf : bool) (s : list Z) (dim : Z) (idx src : list Z)
+| CScatterValue (sf : bool) (s : list Z) (dim : Z) (idx : list Z)
+| CScatterAdd (uf sf : bool) (s : list Z) (dim : Z) (idx src : list Z)
 | CScatterReduce (uf : bool) (s : list Z) (dim : Z) (idx src : list Z) (include_self : bool)
 | CConvolution (of : bool) (s w : list Z) (has_bias : bool) (stride padding dilation : list Z) (transposed : bool) (output_padding : list Z) (groups : Z)
 | CConvNd (lf bf : bool) (e : Z) (s w : list Z) (has_bias : bool) (stride padding dilation : list Z) (groups : Z).
@@ -69,9 +69,9 @@ Definition run_call3 (c : call3) : option pred3 :=
       let n := match torch_var_count s dims with Some n => n | None => 1 end in          (* what ReduceMean divides by *)
       obind (if qpos c then aten_var_count s dims else Some n) (fun numel =>
         Some (P3Vals sq sh (map (fun ssd => aten_var_val ssd n numel c) ssds))))
-  | CScatterSrc s dim idx src => option_map P3Shape (aten_scatter_src_shape s dim idx src)
-  | CScatterValue s dim idx => option_map P3Shape (aten_scatter_value_shape s dim idx)
-  | CScatterAdd uf s dim idx src => option_map P3Shape (aten_scatter_add_shape_v uf s dim idx src)
+  | CScatterSrc sf s dim idx src => option_map P3Shape (aten_scatter_src_shape_v sf s dim idx src)
+  | CScatterValue sf s dim idx => option_map P3Shape (aten_scatter_value_shape_v sf s dim idx)
+  | CScatterAdd uf sf s dim idx src => option_map P3Shape (aten_scatter_add_shape_v2 uf sf s dim idx src)
   | CScatterReduce uf s dim idx src inc => option_map P3Shape (aten_scatter_reduce_shape_v uf s dim idx src inc)
   | CConvolution of s w _ st pd dl tr op g =>
       obind (aten_convolution_attrs_v of (zlen w - 2) st pd dl tr op) (fun a => option_map P3Shape (conv_shape s w g tr a))
@@ -90,9 +90,9 @@ Definition skel_call3 (c : call3) : skel :=
   | CPrimsVar cf nf _ dims c _ => skel_prims_var cf nf dims c
   | CLogSumExp s dims kd => skel_logsumexp s dims kd
   | CVar wm sq _ dims c kd _ => skel_var wm sq dims c kd
-  | CScatterSrc _ dim idx src => skel_scatter_src dim idx src
-  | CScatterValue _ dim idx => skel_scatter_value dim idx
-  | CScatterAdd uf _ dim idx src => skel_scatter_add_v uf dim idx src
+  | CScatterSrc sf s dim idx src => skel_scatter_src_v sf s dim idx src
+  | CScatterValue sf s dim idx => skel_scatter_value_v sf s dim idx
+  | CScatterAdd uf sf s dim idx src => skel_scatter_add_v2 uf sf s dim idx src
   | CScatterReduce uf s dim idx src inc => skel_scatter_reduce_v uf s dim idx src inc
   | CConvolution of s w _ st pd dl tr op g =>
       match aten_convolution_attrs_v of (zlen w - 2) st pd dl tr op with
